@@ -438,10 +438,21 @@ var opDefs = []opDef{
 			segs[k] = types.Segment{Start: types.NewHHmm(a/60, a%60), End: types.NewHHmm(b/60, b%60)}
 			st = append(st, fmt.Sprintf("seg:%d,%d,%d,%d", a/60, a%60, b/60, b%60))
 		}
-		if segs != nil && r.Chance(1, 5) {
-			segs[4] = types.Segment{}
+		if segs != nil && r.Chance(1, 3) { // entries nobody looks up (so that a missing segment is not a short map)
+			for _, k := range []uint8{4, 0, 5, 200} {
+				if r.Bool() {
+					segs[k] = types.Segment{}
+				}
+			}
 		}
 		p := types.TimeProfile{ID: id, LinkedProfileID: linked, From: dateFromTok(tf), To: dateFromTok(tt), Weekdays: wd, Segments: segs}
+		// the "no date" value also exists as the zero instant carrying a Location (it reads 0000-12-31 west of Greenwich)
+		if tf == "date:0" && r.Bool() {
+			p.From = types.Date(time.Time{}.In(time.FixedZone("W", -rng.Pick(r, 5, 10, 1)*3600)))
+		}
+		if tt == "date:0" && r.Bool() {
+			p.To = types.Date(time.Time{}.In(time.FixedZone("E", rng.Pick(r, -5, 9, -10)*3600)))
+		}
 		toks := append([]string{fmt.Sprintf("u8:%d", id), fmt.Sprintf("u8:%d", linked), tf, tt}, wt...)
 		toks = append(toks, st...)
 		return toks, func(u uhppote.IUHPPOTE) string {
